@@ -227,14 +227,17 @@ class ECCMan(object):
             msg_repaired = bytearray(msg_repaired)
             ecc_repaired = bytearray(ecc_repaired)
 
-        if self.algo == 1 or self.algo == 2:
-            # The brownanrs decoders do not check that what they corrected is within the correction capacity: with an odd number of ecc symbols they can return a codeword that differs from the received one by (n-k+1)/2 symbols, which is an ambiguous decoding (several codewords are equally close). Enforce 2*errors + erasures <= n-k, like reedsolo does by itself.
-            received = bytearray(message + ecc)
-            repaired = bytearray(_bytes(msg_repaired)).rjust(k, b"\x00") + bytearray(_bytes(ecc_repaired)).rjust(self.n-k, b"\x00")
-            erased = set(erasures_pos) if erasures_pos else set()
-            errors = len([i for i in _range(len(received)) if repaired[i] != received[i] and i not in erased])
-            if 2*errors + len(erased) > self.n-k:
-                raise brownanrs.RSCodecError("Too many errors to correct (%i errors and %i erasures for %i ecc symbols)" % (errors, len(erased), self.n-k))
+        # Enforce the correction capacity 2*errors + erasures <= n-k on what the decoder returned. The brownanrs decoders (codecs 1 and 2) do not check it at all (with an odd number of ecc symbols they can return a codeword that differs from the received one by (n-k+1)/2 symbols), and reedsolo (codecs 3 and 4) undercounts when erasures are given: rs_find_error_locator subtracts the number of erasures from the degree of a locator that, computed from the Forney syndromes, holds the errors only, so eg 1 error + 1 erasure is accepted with 2 ecc symbols. Such a decoding is ambiguous (several codewords are equally close), so it is refused.
+        received = bytearray(message + ecc)
+        repaired = bytearray(_bytes(msg_repaired)).rjust(k, b"\x00") + bytearray(_bytes(ecc_repaired)).rjust(self.n-k, b"\x00")
+        erased = set(erasures_pos) if erasures_pos else set()
+        errors = len([i for i in _range(len(received)) if repaired[i] != received[i] and i not in erased])
+        if 2*errors + len(erased) > self.n-k:
+            errmsg = "Too many errors to correct (%i errors and %i erasures for %i ecc symbols)" % (errors, len(erased), self.n-k)
+            if self.algo == 1 or self.algo == 2:
+                raise brownanrs.RSCodecError(errmsg)
+            else:
+                raise reedsolo.ReedSolomonError(errmsg)
 
         if pad: # Strip the null bytes if we padded the message before decoding
             msg_repaired = msg_repaired[len(pad):len(msg_repaired)]
